@@ -104,16 +104,20 @@ def getXSTypeLabelFromNumber(xsTypeNumber: int) -> str:
     2-digit labels are supported when there is only one burnup group.
     """
     try:
-        if xsTypeNumber > ord("Z"):
-            # two digit. Parse
-            return chr(int(str(xsTypeNumber)[:2])) + chr(int(str(xsTypeNumber)[2:]))
-        elif xsTypeNumber < ord("A"):
+        if xsTypeNumber < ord("A"):
             raise ValueError(
                 f"Cannot convert invalid xsTypeNumber `{xsTypeNumber}` to char. "
                 "The number must be >= 65 (corresponding to 'A')."
             )
-        else:
-            return chr(xsTypeNumber)
+        # The number is the concatenation of the character codes of the label: two digits
+        # for 'A'-'Z' and 'a'-'c' (65-99), three digits for 'd'-'z' (100-122, leading 1).
+        digits = str(xsTypeNumber)
+        label = ""
+        while digits:
+            numDigits = 3 if digits[0] == "1" else 2
+            label += chr(int(digits[:numDigits]))
+            digits = digits[numDigits:]
+        return label
     except ValueError:
         runLog.error("Error converting {} to label.".format(xsTypeNumber))
         raise
